@@ -64,6 +64,10 @@ R_MUST = _rule("R-MUST", "r_must", text="must-pass-through on accepting paths: t
                "infinity / zero tests, scalar / group arithmetic, decode / encode, parity, sort) executed on every path to every accepting return of each exported function on the "
                "reviewed tree (tables/must_pass.json) are still executed on every such path (accept-path partitioned dataflow over clang's CFG with must summaries of helpers)")
 
+R_NULL = _rule("R-NULL", "r_null", all_for=("C07",), text="a pointer parameter that its function tests for NULL anywhere is dereferenced only where the non-NULL outcome of such a test "
+               "dominates (armed for the parameters where this holds at every dereference on the reviewed tree, tables/null_params.json)")
+
+
 def _const_run(cfg, tier):
     import r_const
     return _memo("R-CONST", cfg, lambda c: r_const.obligations(c))
@@ -76,7 +80,15 @@ RULE_TEXT["R-CONST"] = ("numeric constants and precomputed tables, read from the
                         "secp256k1_pre_g / pre_g_128 ((2i+1)G, (2i+1)2^128 G) and of the ecmult_gen comb table")
 
 DECODE = [R_CHK, R_OBL, R_RED, R_ORD, R_TAG, R_BOOL, R_VERDICT, R_SCTX, R_MUST, R_CONST]
-BOUNDS = [R_CAP, R_RING, R_WRAP, R_INB, R_LEN, R_SIB, R_BITS]
+R_CURSOR = _rule("R-CURSOR", "r_cur", text="every read, copy and advance through the DER reader's (cursor, end) pointer pair stays inside the buffer: forward dataflow with the relational "
+                 "facts end - cursor >= c and end - cursor >= v + c and byte-value ranges (armed groups, tables/cursor_sites.json)")
+R_SAME = _rule("R-SAME", "r_same", text="a validity test (is_infinity / is_zero) on an array element guards the use of that same element: the element expression of the test and of the "
+               "guarded call are identical and its index variables are not reassigned in between (instances discovered on the reviewed tree, tables/same_elem.json)")
+BOUNDS = [R_CAP, R_RING, R_WRAP, R_INB, R_LEN, R_SIB, R_BITS, R_NULL, R_CURSOR, R_SAME]
+# every module-level property runs every rule family; obligations are scoped to a property by the function they sit in
+# (core.props_of_function) or by the explicit property set of their instance table, so a rule contributes nothing where
+# it has no instance.  (Found with seed C12-d: R-BITS had the MuSig counter instance but C12 did not run R-BITS.)
+
 
 ALL_CFG = ["K0", "K1", "K2", "K3"]
 
@@ -100,16 +112,18 @@ def _prop(pid, rules, head, not_decided, **kw):
 
 _BOUND_ASSUME = ["distinct pointer parameters do not alias", "summaries: secp256k1_count_bits_set(d, c) in [0, 8c]; clz/ctz ranges"]
 
-_prop("C01", DECODE + [R_FLOW, R_ZOF, R_BIND],
+ALL_RULES = DECODE + BOUNDS + [R_FLOW, R_ZOF, R_BIND, R_DOM, R_PAIR, R_SIZE]
+
+_prop("C01", ALL_RULES,
       "ECDSA, structural clauses (the recovery module is analysed although the pinned build omits it).",
       "that the equation computed is the ECDSA equation; low-S of produced signatures; RFC 6979 byte-exactness; recover(sign) == pubkey (256-bit arithmetic)")
-_prop("C02", DECODE + [R_FLOW, R_ZOF],
+_prop("C02", ALL_RULES,
       "BIP-340, structural clauses.",
       "byte-for-byte equality with BIP-340, aux=NULL == zero aux, exact acceptance set (hash and curve arithmetic)")
-_prop("C03", DECODE + [R_ZOF, R_INB, R_LEN, R_SIZE],
+_prop("C03", ALL_RULES,
       "Key and signature encodings, structural clauses.",
       "the DER grammar itself (minimal-length / padding predicates over byte values), hybrid parity rule, round-trip equalities")
-_prop("C04", DECODE + [R_FLOW, R_ZOF],
+_prop("C04", ALL_RULES,
       "Key algebra, structural clauses.",
       "commutation of secret and public operations, correctness of heap sort beyond its length argument, lexicographic order")
 _prop("C05", [R_FLOW, R_PAIR, R_CONST],
@@ -124,44 +138,44 @@ _prop("C07", BOUNDS + [R_PAIR, R_SIZE, R_BOOL, R_ABORT],
       "general in-bounds / UB-freedom of the proof verifiers (needs relational invariants such as npub = sum rsizes <= 128, outside the interval and linear-form domains: "
       "those sites are listed in the evidence as not armed); termination",
       assumptions=_BOUND_ASSUME)
-_prop("C08", DECODE + [R_BIND],
+_prop("C08", ALL_RULES,
       "Pedersen commitments, structural clauses.",
       "that the commitment is bG + vH, tally semantics, round-trips")
-_prop("C09", DECODE + BOUNDS,
+_prop("C09", ALL_RULES,
       "Range-proof creation, structural clauses.",
       "created proofs verify, bound the value, rewind (value-level)", assumptions=_BOUND_ASSUME)
-_prop("C10", DECODE + BOUNDS,
+_prop("C10", ALL_RULES,
       "Range-proof verification, structural clauses.",
       "the Borromean ring equation and hash binding values", assumptions=_BOUND_ASSUME)
-_prop("C11", DECODE + BOUNDS + [R_PAIR, R_SIZE],
+_prop("C11", ALL_RULES,
       "Surjection proofs, structural clauses.",
       "subset selection correctness, the ring equation", assumptions=_BOUND_ASSUME)
-_prop("C12", DECODE + [R_FLOW, R_ZOF, R_BIND, R_DOM],
+_prop("C12", ALL_RULES,
       "MuSig2, structural clauses.",
       "equality with the BIP-327 functions, session validity, adapt/extract inverse (algebra)")
-_prop("C13", [R_ZOF, R_CHK, R_OBL, R_BIND, R_DOM, R_MUST],
+_prop("C13", ALL_RULES,
       "MuSig secnonce single use — typestate over call histories, decided on the functions that implement it: *secnonce is all-zero at EVERY return of "
       "partial_sign after its own NULL check (incl. every later ARG_CHECK return); secnonce is zero on every failing return of nonce_gen / nonce_gen_counter "
       "(through nonce_gen_internal and secnonce_invalidate); session_secrand32 is zero whenever nonce_gen succeeds; the stored public key is compared as a "
       "full point; a signature is saved only after secnonce_load succeeded. Induction over histories: an all-zero secnonce stays unusable until a "
       "successful nonce_gen, and every partial_sign that touches it leaves it all-zero.",
       "that secp256k1_memzero_explicit is not optimised away (compiler property)")
-_prop("C14", DECODE + [R_ZOF, R_BIND],
+_prop("C14", ALL_RULES,
       "ECDSA adaptor signatures, structural clauses.",
       "the adaptor and DLEQ equations, recover(decrypt) identity")
-_prop("C15", DECODE + [R_ZOF, R_FLOW],
+_prop("C15", ALL_RULES,
       "Sign-to-contract / anti-exfil, structural clauses.",
       "equality of the two nonce derivations' values beyond the shared RFC 6979 sanitiser, soundness of the commitment")
-_prop("C16", DECODE + BOUNDS + [R_SIZE],
+_prop("C16", ALL_RULES,
       "Whitelist proofs, structural clauses.",
       "the ring equation, round-trip", assumptions=_BOUND_ASSUME)
-_prop("C17", DECODE + BOUNDS + [R_BIND],
+_prop("C17", ALL_RULES,
       "Half-aggregation, structural clauses.",
       "the aggregate equation, incremental == one-shot equality (256-bit arithmetic)", assumptions=_BOUND_ASSUME)
-_prop("C18", DECODE + [R_ZOF],
+_prop("C18", ALL_RULES,
       "ECDH / ElligatorSwift, structural clauses.",
       "agreement of both parties, the map and its inverse (field arithmetic)")
-_prop("C19", DECODE + [R_BIND, R_INB, R_CAP, R_LEN, R_PAIR, R_SIZE],
+_prop("C19", ALL_RULES,
       "Bulletproofs++, structural clauses.",
       "completeness / soundness of the norm argument, generator determinism", assumptions=_BOUND_ASSUME)
 
